@@ -656,10 +656,12 @@ class ExprMixin:
             j2 = self.qvar("j")
             i = self.qvar("i")
             self.binders.append((j, z3.And(j >= 0, j < m)))
+            self.spec += 1       # safety of the predicate is checked below, for every index of the source list
             try:
                 x = Val(lt.elem, self.list_get(src, emb(*bvs, j)))
                 p = pred(x)
             finally:
+                self.spec -= 1
                 self.binders.pop()
             self.assume(z3.ForAll([j], z3.Implies(z3.And(j >= 0, j < m), z3.And(
                 emb(*bvs, j) >= 0, emb(*bvs, j) < n, self.list_get(r, j) == self.list_get(src, emb(*bvs, j)), p)),
